@@ -68,5 +68,24 @@ MOS += [
 ]
 
 
+SL = "persistence::Snapshot::load"
+SNAP_OK = stmt(r"^_0 = Result::<Snapshot, anyhow::Error>::Ok\(", name="return Ok(snapshot)")
+MOS += [
+    MO("O13.4/snapshot_load", "Snapshot::load: Ok only when the magic matches, the stored checksum equals crc32(payload), the version matches and the payload deserialises and validates; "
+       "the checksum is compared before any byte of the payload is deserialised",
+       allof(only_via(SL, SNAP_OK, Arm(r"^Ne\(call core::num::<impl u32>::from_le_bytes, const persistence::SNAPSHOT_MAGIC\)$", {"0"}, name="magic matches")),
+             only_via(SL, SNAP_OK, Arm(r"^Ne\(call core::num::<impl u32>::from_le_bytes, call crc32fast::hash\)$", {"0"}, name="checksum equal")),
+             only_via(SL, SNAP_OK, Arm(r"^Ne\(.* as Continue\)\.0: u32\), const persistence::SNAPSHOT_VERSION\)$", {"0"}, name="version matches")),
+             only_via(SL, SNAP_OK, Arm(r"^discr\(try\(call Snapshot::validate_and_normalize\)\)$", {"0"}, name="validate_and_normalize()? -> Ok")),
+             only_via(SL, call(r"= bincode::deserialize", name="bincode::deserialize*"), Arm(r"^Ne\(call core::num::<impl u32>::from_le_bytes, call crc32fast::hash\)$", {"0"}, name="checksum equal")),
+             precedes(SL, call(r"= crc32fast::hash\(", name="crc32fast::hash(payload)"), call(r"= bincode::deserialize", name="bincode::deserialize*"))),
+       functions=[("persistence.rs", "load")]),
+    MO("O13.4/load_with_validation", "Snapshot::load_with_validation: every Ok comes from a successful Snapshot::load (primary or a fallback file); the fallback flag is true exactly on the fallback arm",
+       allof(never("persistence::Snapshot::load_with_validation", stmt(r"^_0 = Result::<\(Snapshot, bool\), anyhow::Error>::Ok\(", name="return Ok((snapshot, flag))"),
+                   cut=[Arm(r"^discr\(call Snapshot::load::<", {"0"}, name="Snapshot::load -> Ok")]),),
+       functions=[("persistence.rs", "load_with_validation")]),
+]
+
+
 def run(tier, seed, notes):
     return run_mir_obligations("C13", tier, MOS, notes)
